@@ -131,6 +131,7 @@ func smallPat(t *rapid.T, depth int) *ref.Pat {
 		}
 		q := &ref.Pat{K: "q", Subs: []*ref.Pat{s}}
 		gen.Quant(q, rapid.IntRange(0, 5).Draw(t, "qf"), rapid.IntRange(0, 2).Draw(t, "qn"), rapid.IntRange(0, 2).Draw(t, "qm"))
+		q.Lazy = rapid.IntRange(0, 3).Draw(t, "lazy") == 0 // a lazy quantifier denotes the same language
 		return q
 	}
 }
@@ -228,6 +229,20 @@ func checkSet(defs []*Def, src string) (intersecting bool, realConflict bool, er
 	var perr, derr error
 	var dfa *auto.DFA
 	var termMap map[grammar.Terminal][]auto.State
+	// a third of the sets (chosen by a digest of the text) is processed right after a set whose patterns are wrong in
+	// two ways at once (meaningless and unparsable): its diagnostics belong to it alone
+	h := uint32(2166136261)
+	for i := 0; i < len(src); i++ {
+		h = (h ^ uint32(src[i])) * 16777619
+	}
+	if h%3 == 0 {
+		_ = rec.Guard(func() {
+			if bad, err := spec.Parse("bad.ebnf", strings.NewReader("grammar bad;\nAA = /[0-9]{4,2}(/\nBB = /[z-a][0-9/\nCC = /x{3,1})/\nstart = AA BB CC;\n")); err == nil {
+				_, _, _ = bad.DFA()
+			}
+		})
+		rec.Count("sets_processed_right_after_a_set_of_wrong_patterns", 1)
+	}
 	if g := rec.Guard(func() {
 		sp, perr = spec.Parse("t.ebnf", strings.NewReader(src))
 		if perr == nil {
